@@ -836,7 +836,7 @@ def read_matrix_table(path, *, _intervals=None, _filter_intervals=False, _drop_c
                       _load_refs=True):
     CUR.tick()
     ds = CUR.world.read_dataset(path)
-    return MatrixTable(IRNode('MatrixRead', prov=ds['prov'], srcs={path: 1},
+    return MatrixTable(IRNode('MatrixRead', prov=ds['prov'], srcs={ds['vid']: 1},
                               meta=_meta(globals=tuple(ds['globals']), key=tuple(ds['key']), entry=ds['entry'],
                                          mtype=ds['mtype'])))
 
@@ -1136,7 +1136,8 @@ class World:
     def __init__(self, posix):
         self.posix = posix
         self.files = {}       # path -> str content
-        self.datasets = {}    # path -> {'prov','srcs','globals','key','entry','mtype'}
+        self.datasets = {}    # path -> {'vid','prov','srcs','globals','key','entry','mtype'}  (current version)
+        self.versions = {}    # 'path#n' -> same record, kept after the path is overwritten (lineage is a DAG of versions)
         self.gvcfs = {}       # path -> sample id
         self.input_vds = {}   # path -> n_samples
         self.references = {}
@@ -1182,15 +1183,19 @@ class World:
             self.datasets.pop(path, None)
         irn = table._irn
         m = irn.meta
-        self.datasets[path] = {'prov': Counter(irn.prov), 'srcs': Counter(irn.srcs), 'globals': tuple(m['globals']),
-                               'key': tuple(m['key']), 'entry': m['entry'], 'mtype': table._type}
+        self.n_dataset_writes += 1
+        vid = f'{path}#{self.n_dataset_writes}'
+        self.datasets[path] = self.versions[vid] = {
+            'vid': vid, 'prov': Counter(irn.prov), 'srcs': Counter(irn.srcs), 'globals': tuple(m['globals']),
+            'key': tuple(m['key']), 'entry': m['entry'], 'mtype': table._type}
         self.files[path + '/metadata.json.gz'] = 'sim'
         self.files[path + '/_SUCCESS'] = ''
-        self.n_dataset_writes += 1
 
     def put_input_dataset(self, path, prov, globals_, key, entry, mtype):
-        self.datasets[path] = {'prov': Counter(prov), 'srcs': Counter(), 'globals': tuple(globals_), 'key': tuple(key),
-                               'entry': entry, 'mtype': mtype}
+        vid = f'{path}#0'
+        self.datasets[path] = self.versions[vid] = {
+            'vid': vid, 'prov': Counter(prov), 'srcs': Counter(), 'globals': tuple(globals_), 'key': tuple(key),
+            'entry': entry, 'mtype': mtype}
         self.files[path + '/metadata.json.gz'] = 'sim'
         self.files[path + '/_SUCCESS'] = ''
 
